@@ -107,6 +107,10 @@ MUTANTS = [
     ("cl_rwg_shapeset", "bempp_cl/core/sources/include/rwg0_shapeset.h", "result[2 * 1 + 0] = localPoint->x - 1;", "result[2 * 1 + 0] = localPoint->x;", 0, ["C20"]),
     ("cl_const_digit", "bempp_cl/core/sources/include/bempp_base_types.h", "#define M_INV_4PI 0.07957747154594767", "#define M_INV_4PI 0.07957747154594676", 0, ["C20"]),
     # ---- spaces / sparse / grid functions
+    ("mass_matrix_roles_swapped", "bempp_cl/api/utils/helpers.py", "return identity(domain, domain, dual_to_range).weak_form()", "return identity(dual_to_range, domain, domain).weak_form()", 0, ["C13"]),
+    ("inverse_mass_of_other_pair", "bempp_cl/api/utils/helpers.py", "return InverseSparseDiscreteBoundaryOperator(get_mass_matrix(domain, dual_to_range))", "return InverseSparseDiscreteBoundaryOperator(get_mass_matrix(dual_to_range, domain))", 0, ["C13"]),
+    ("pseudo_inverse_thin_missing_adjoint", "bempp_cl/api/assembly/discrete_boundary_operator.py", "self._solve_fun = lambda x: solver.solve(mat_hermitian * x)", "self._solve_fun = lambda x: solver.solve(x)", 0, ["C13"]),
+    ("pseudo_inverse_thick_gram", "bempp_cl/api/assembly/discrete_boundary_operator.py", "                solver = solver_interface((mat * mat_hermitian).tocsc())", "                solver = solver_interface((mat_hermitian * mat).tocsc())", 0, ["C13"]),
     ("sparse_transform_wrong_side", "bempp_cl/core/sparse_assembler.py", "mat = dual_to_range.dof_transformation.T @ mat", "mat = mat @ dual_to_range.dof_transformation.T", 0, ["C13"]),
     ("sparse_transform_not_transposed", "bempp_cl/core/sparse_assembler.py", "mat = dual_to_range.dof_transformation.T @ mat", "mat = dual_to_range.dof_transformation @ mat", 0, ["C13"]),
     ("sparse_scatter_swap", "bempp_cl/core/sparse_assembler.py", "global_rows = test_local2global[rows]\n        global_cols = trial_local2global[cols]", "global_rows = test_local2global[cols]\n        global_cols = trial_local2global[rows]", 0, ["C13", "C04"]),
